@@ -40,6 +40,22 @@ def cases(ctx: Ctx, res: Result):
     for phens, stream in corpus:
         res.count('corpus')
         yield Case(phens, 0, ev_ops(stream), 'corpus')
+    # ONE block object at several positions of a pattern, the last among them (`[first] + [reading] * 3`; door, motion,
+    # window, motion): equal texts are one object in predlang, so whatever tells blocks apart by identity confuses them
+    import itertools as _it
+    rep = [
+        P('p', ['0000', '0000', '0000', '0000'], [['eq:0'], ['eq:1'], ['eq:1'], ['eq:1']], ['a', 'b', 'b', 'b']),
+        P('p', ['0000', '0000', '0000', '0000'], [['eq:0'], ['eq:1'], ['eq:2'], ['eq:1']], ['a', 'b', 'c', 'b']),
+        P('p', ['0000', '1000', '1000', '1000'], [['eq:0'], ['ne:0'], ['ne:0'], ['ne:0']], ['a', 'b', 'b', 'b']),
+        P('p', ['0000', '0000', '0001', '0100', '0000'], [['eq:0'], ['eq:1'], ['eq:2'], ['eq:0'], ['eq:1']], ['a', 'b', 'c', 'd', 'b']),
+        P('p', ['0000', '0000', '0000'], [['eq:0'], ['eq:1'], ['eq:1']], ['a', 'b', 'b'], singleton=True),
+    ]
+    for pat in rep:
+        for s_ in _it.product((0, 1, 2), repeat=5):
+            if s_[0] != 0:
+                continue
+            res.count('repeated_block_object')
+            yield Case([('ph', [pat])], 0, ev_ops(list(s_)), 'repeated-block')
     # bounded-exhaustive: every legal flag vector up to k blocks x all streams of length L
     kmax, L = (3, 5) if ctx.thorough else (3, 4)
     if ctx.thorough:
